@@ -15,7 +15,7 @@ RULE = ("seqs_to_regex / seqs_to_consensus / seqlogos on every list of 1..3 equa
         "heat-map matrix vs alpha (below) / beta (above) distances in dendrogram order; non-trivial = data with at least two distinct values")
 ASSUMPTIONS = ["pixels are never inspected, only artist data", "pyplot's figure registry is environment: plt.close('all') after every call",
                "align=True paths need the external mafft-linsi binary (absent) and are outside the quantifier"]
-REQUIRED_CLASSES = {"all": ["gapped-column", "regex-language-checked", "nan-in-counts", "rare-label-black", "every-shuffle-permutation", "repeated-point", "clustermap-paired", "clustermap-single-chain", "shifted-index"]}
+REQUIRED_CLASSES = {"all": ["gapped-column", "regex-language-checked", "nan-in-counts", "rare-label-black", "every-shuffle-permutation", "repeated-point", "clustermap-paired", "clustermap-single-chain", "shifted-index", "chain-boundary-shift-rows"]}
 MIN_OUTCOMES = 10
 SINGLE_THREAD_RAPIDFUZZ = True
 CD = ("CA", "CS", "AS")
@@ -70,6 +70,11 @@ def spaces(tier):
                 if ci % stride != 1:
                     continue
                 yield ("cmap", tab)
+        # residues can shift across the chain boundary: Levenshtein(alpha+'_'+beta) < lev(alpha) + lev(beta)
+        srows = [(0, 0), (1, 1), (2, 2), (0, 2), (2, 0)]
+        for tab in itertools.product(srows, repeat=3):
+            if len(set(tab)) == 3 and sum(a * 3 + b for a, b in tab) % (3 if q else 1) == 0:
+                yield ("cmap-shift", tab)
 
     return [
         Space("regex-consensus-all-lists", gen_regex, "lists of 1..3 sequences of equal length 1..3 over {C,A,S,-}, every column holding a residue (quick: without 3x3)", shards=64),
@@ -100,7 +105,7 @@ def check_case(case, acc):
             _colors(acc, case)
         elif kind == "scatter":
             _scatter(acc, case)
-        elif kind == "cmap":
+        elif kind in ("cmap", "cmap-shift"):
             _cmap(acc, case)
         else:
             raise HarnessError("unknown case %r" % (case,))
@@ -331,8 +336,13 @@ def _cmap(acc, case):
     import pyrepseq.plotting as P
     tab = case[1]
     n = len(tab)
-    A = [CD[a] + "A" * b for a, b in tab]     # alpha and beta differ so that swapped triangles are observable
-    B = [CD[b] for a, b in tab]
+    if case[0] == "cmap-shift":
+        acc.cls("chain-boundary-shift-rows")
+        A = [("C", "CA", "CAA")[a] for a, b in tab]
+        B = [("AAS", "AS", "S")[b] for a, b in tab]
+    else:
+        A = [CD[a] + "A" * b for a, b in tab]     # alpha and beta differ so that swapped triangles are observable
+        B = [CD[b] for a, b in tab]
     dA = np.array([[ref_lev(A[i], A[j]) for j in range(n)] for i in range(n)], dtype=float)
     dB = np.array([[ref_lev(B[i], B[j]) for j in range(n)] for i in range(n)], dtype=float)
     iu = np.triu_indices(n, 1)
@@ -344,7 +354,7 @@ def _cmap(acc, case):
             if index == "shifted":
                 df.index = range(11, 11 + n)
                 acc.cls("shifted-index")
-            kw = dict(cluster_kws=dict(t=1.5, criterion="distance"))
+            kw = dict(cluster_kws=dict(t=1.5, criterion="distance"))   # t between the possible distances so that clusters are informative
             if mode == "alpha":
                 kw["beta_column"] = None
                 acc.cls("clustermap-single-chain")
@@ -362,7 +372,7 @@ def _cmap(acc, case):
             snap = df.copy(deep=True)
             r = acc.call(P.similarity_clustermap, df, **kw)
             key = "similarity_clustermap/%s/" % mode
-            rc = ("cmap", tab)
+            rc = (case[0], tab)
             if raised(r):
                 acc.fail(key + "raised-" + r.type, rc, "(grid, linkage, cluster)", r, note="index=%s" % index)
                 return
